@@ -10696,7 +10696,16 @@ func (p *parser) visitAndAppendStmt(stmts []js_ast.Stmt, stmt js_ast.Stmt) []js_
 		}
 
 		p.currentScope.Label = ast.LocRef{Loc: s.Name.Loc, Ref: ref}
-		switch s.Stmt.Data.(type) {
+		labeled := s.Stmt
+		for {
+			// "a: b: for (;;) continue a" is valid
+			if inner, ok := labeled.Data.(*js_ast.SLabel); ok {
+				labeled = inner.Stmt
+			} else {
+				break
+			}
+		}
+		switch labeled.Data.(type) {
 		case *js_ast.SFor, *js_ast.SForIn, *js_ast.SForOf, *js_ast.SWhile, *js_ast.SDoWhile:
 			p.currentScope.LabelStmtIsLoop = true
 		}
